@@ -228,7 +228,7 @@ func authStates(ctx *engine.Ctx) {
 }
 
 type inputCase struct {
-	Kind   string `json:"kind"` // position | flip | trunc | repeat | foreign
+	Kind   string `json:"kind"` // position | flip | trunc | repeat | same-salt | foreign
 	Size   int    `json:"size"`
 	Pos    int    `json:"pos"`
 	Cipher int    `json:"cipher"`
@@ -295,6 +295,18 @@ func runInputCase(ctx *engine.Ctx, ic inputCase) {
 				break
 			}
 		}
+	case "same-salt":
+		// two different keys (same cipher) whose clients happen to pick the same salt, replay history
+		// on: both openings are new, both authenticate (in either order)
+		cache := service.NewReplayCache(ic.N)
+		auth = service.NewShadowsocksStreamAuthenticator(cl, &cache, nil, nil)
+		for r, k := range []*world.Key{keys[ic.Pos], keys[ic.Pos+4], keys[(ic.Pos+8)%ic.Size]} {
+			id, ok, _, st := authOnce(auth, k, uint64(70+ic.Pos), from)
+			if !ok || id != k.ID {
+				fail("configured-key-rejected", fmt.Sprintf("replay history %d: opening %d (key %s, a salt that another key's client has used) gave id=%q status=%q", ic.N, r+1, k.ID, id, st))
+				break
+			}
+		}
 	case "foreign":
 		k := world.MakeKey("foreign", world.Ciphers[ic.Cipher], fmt.Sprintf("secret-%d", ic.N)) // same secret text, other cipher (or unknown secret)
 		allowed := allowedIDs(keys, k)
@@ -331,6 +343,11 @@ func authInputs(ctx *engine.Ctx) {
 	for pos := 0; pos < 4; pos++ {
 		for n := 1; n <= 4; n++ {
 			cases = append(cases, inputCase{Kind: "repeat", Size: 5, Pos: pos, N: n})
+		}
+	}
+	for pos := 0; pos < 4; pos++ {
+		for _, n := range []int{1, 10, 1000} {
+			cases = append(cases, inputCase{Kind: "same-salt", Size: 12, Pos: pos, N: n})
 		}
 	}
 	for c := 0; c < 4; c++ {
